@@ -538,25 +538,29 @@ Proof.
 Qed.
 
 (* ---- allocation of slices and maps ---- *)
-Lemma load_arr_spec h l h' r : load_arr h l = (h', r) ->
+Lemma load_arr_spec rep h l h' r : load_arr rep h l = (h', r) ->
   ext h h' /\ inb (List.length h') r /\ geb (List.length h) r /\ get_arr h' r = l.
 Proof.
-  unfold load_arr, alloc. destruct l as [|x t]; intros E; inversion E; subst; clear E.
+  unfold load_arr, alloc. destruct l as [|x t]; [destruct rep|]; intros E; inversion E; subst; clear E.
+  - split; [apply ext_snoc|]. split; [cbn; rewrite app_length; cbn; lia|]. split; [cbn; lia|].
+    unfold get_arr. rewrite nth_snoc. reflexivity.
   - split; [apply ext_refl|]. split; [exact I|]. split; [exact I|]. reflexivity.
   - split; [apply ext_snoc|]. split; [cbn; rewrite app_length; cbn; lia|]. split; [cbn; lia|].
     unfold get_arr. rewrite nth_snoc. reflexivity.
 Qed.
 
-Lemma load_map_spec h m h' r : load_map h m = (h', r) ->
+Lemma load_map_spec rep h m h' r : load_map rep h m = (h', r) ->
   ext h h' /\ inb (List.length h') r /\ geb (List.length h) r /\ get_map h' r = m.
 Proof.
-  unfold load_map, alloc. destruct m as [|x t]; intros E; inversion E; subst; clear E.
+  unfold load_map, alloc. destruct m as [|x t]; [destruct rep|]; intros E; inversion E; subst; clear E.
+  - split; [apply ext_snoc|]. split; [cbn; rewrite app_length; cbn; lia|]. split; [cbn; lia|].
+    unfold get_map. rewrite nth_snoc. reflexivity.
   - split; [apply ext_refl|]. split; [exact I|]. split; [exact I|]. reflexivity.
   - split; [apply ext_snoc|]. split; [cbn; rewrite app_length; cbn; lia|]. split; [cbn; lia|].
     unfold get_map. rewrite nth_snoc. reflexivity.
 Qed.
 
-Lemma clone_arr_load h r : clone_arr h r = load_arr h (get_arr h r).
+Lemma clone_arr_load h r : clone_arr h r = load_arr false h (get_arr h r).
 Proof. unfold clone_arr, load_arr. destruct (get_arr h r); reflexivity. Qed.
 
 Lemma clone_map_spec h r h' r' : clone_map true h r = (h', r') ->
@@ -603,9 +607,9 @@ Proof.
   destruct (nth_error h sid) as [[| |nm sc lv ov vts st ids g]|]; try contradiction.
   destruct C as (C1 & C2 & C3 & C4).
   destruct (clone_map true h ov) as [h1 ov'] eqn:E1.
-  rewrite clone_arr_load in E. destruct (load_arr h1 (get_arr h1 ids)) as [h2 ids'] eqn:E2.
-  rewrite clone_arr_load in E. destruct (load_arr h2 (get_arr h2 st)) as [h3 st'] eqn:E3.
-  rewrite clone_arr_load in E. destruct (load_arr h3 (get_arr h3 sc)) as [h4 sc'] eqn:E4.
+  rewrite clone_arr_load in E. destruct (load_arr false h1 (get_arr h1 ids)) as [h2 ids'] eqn:E2.
+  rewrite clone_arr_load in E. destruct (load_arr false h2 (get_arr h2 st)) as [h3 st'] eqn:E3.
+  rewrite clone_arr_load in E. destruct (load_arr false h3 (get_arr h3 sc)) as [h4 sc'] eqn:E4.
   unfold alloc in E. inversion E; subst; clear E.
   apply clone_map_spec in E1. destruct E1 as (X1 & I1 & G1 & V1).
   apply load_arr_spec in E2. destruct E2 as (X2 & I2 & G2 & V2).
@@ -636,14 +640,14 @@ Qed.
 Lemma geb0 r : geb 0 r.
 Proof. destruct r; cbn; [lia | trivial]. Qed.
 
-Lemma load_stmt_spec h s h' sid : load_stmt h s = (h', sid) ->
+Lemma load_stmt_spec rep h s h' sid : load_stmt rep h s = (h', sid) ->
   ext h h' /\ view h' sid = s /\ closed (List.length h') h' sid.
 Proof.
   unfold load_stmt. intros E.
-  destruct (load_arr h (s_scopes s)) as [h1 sc] eqn:E1.
-  destruct (load_map h1 (sv_override (s_sv s))) as [h2 ov] eqn:E2.
-  destruct (load_arr h2 (s_stores s)) as [h3 st] eqn:E3.
-  destruct (load_arr h3 (s_ids s)) as [h4 ids] eqn:E4.
+  destruct (load_arr rep h (s_scopes s)) as [h1 sc] eqn:E1.
+  destruct (load_map rep h1 (sv_override (s_sv s))) as [h2 ov] eqn:E2.
+  destruct (load_arr rep h2 (s_stores s)) as [h3 st] eqn:E3.
+  destruct (load_arr rep h3 (s_ids s)) as [h4 ids] eqn:E4.
   unfold alloc in E. inversion E; subst; clear E.
   apply load_arr_spec in E1. destruct E1 as (X1 & I1 & _ & V1).
   apply load_map_spec in E2. destruct E2 as (X2 & I2 & _ & V2).
@@ -657,12 +661,12 @@ Proof.
   rewrite B1, V1, V2, V3, V4. destruct s as [nm scs [lv ovr vts] sts idl g]. reflexivity.
 Qed.
 
-Lemma load_doc_spec d : forall h h' doc, load_doc h d = (h', doc) ->
+Lemma load_doc_spec rep d : forall h h' doc, load_doc rep h d = (h', doc) ->
   ext h h' /\ Forall (closed (List.length h') h') doc /\ map (view h') doc = d.
 Proof.
   induction d as [|s t IH]; intros h h' doc E; cbn in E.
   - inversion E; subst. split; [apply ext_refl|]. split; [constructor | reflexivity].
-  - destruct (load_stmt h s) as [h1 sid] eqn:E1. destruct (load_doc h1 t) as [h2 doc'] eqn:E2.
+  - destruct (load_stmt rep h s) as [h1 sid] eqn:E1. destruct (load_doc rep h1 t) as [h2 doc'] eqn:E2.
     inversion E; subst; clear E.
     apply load_stmt_spec in E1. destruct E1 as (X1 & V1 & C1).
     apply IH in E2. destruct E2 as (X2 & F2 & M2).
@@ -938,7 +942,7 @@ End Select.
 (* ================================================================== *)
 (* Part 3 — the theorems on laid-out documents, [model] in closed form, the oracle *)
 
-Lemma loaded d h0 doc : load_doc [] d = (h0, doc) ->
+Lemma loaded rep d h0 doc : load_doc rep [] d = (h0, doc) ->
   Forall (closed (List.length h0) h0) doc /\ map (view h0) doc = d.
 Proof. intros E. apply load_doc_spec in E. tauto. Qed.
 
@@ -946,10 +950,10 @@ Lemma inv0 h0 : inv (List.length h0) h0 h0 [].
 Proof. split; [apply agree_refl|]. split; [lia | constructor]. Qed.
 
 (* the loops over Go objects choose what the value-level description says *)
-Lemma heap_refines d q h0 doc : load_doc [] d = (h0, doc) ->
+Lemma heap_refines rep d q h0 doc : load_doc rep [] d = (h0, doc) ->
   res_view (h_select true h0 doc q) = v_select d q.
 Proof.
-  intros E. destruct (loaded d h0 doc E) as [F M].
+  intros E. destruct (loaded rep d h0 doc E) as [F M].
   destruct (h_select true h0 doc q) as [h1 r] eqn:ES.
   destruct (select_inv _ h0 doc h0 [] q h1 r F (inv0 h0) ES) as [V _]. rewrite V, M. reflexivity.
 Qed.
@@ -962,13 +966,13 @@ Proof.
 Qed.
 
 (* C08_private_copy, whole sessions *)
-Lemma session_private d ops h0 doc rs hf : load_doc [] d = (h0, doc) ->
+Lemma session_private rep d ops h0 doc rs hf : load_doc rep [] d = (h0, doc) ->
   session true doc h0 [] ops = (rs, hf) ->
   rs = map (v_select d) (sel_queries ops)
   /\ map (view hf) doc = d
   /\ forall o, o < List.length h0 -> nth_error hf o = nth_error h0 o.
 Proof.
-  intros E ES. destruct (loaded d h0 doc E) as [F M].
+  intros E ES. destruct (loaded rep d h0 doc E) as [F M].
   destruct (session_ref _ h0 doc F ops h0 [] rs hf (inv0 h0) ES) as [R A].
   split; [rewrite R, M; reflexivity|]. split; [|exact A].
   rewrite (views_agree _ h0 hf doc F A). exact M.
@@ -982,12 +986,12 @@ Proof.
   destruct Ho as [ -> | [ -> | [ -> | -> ] ] ]; assumption.
 Qed.
 
-Lemma handed_out_disjoint d q h0 doc h1 p : load_doc [] d = (h0, doc) ->
+Lemma handed_out_disjoint rep d q h0 doc h1 p : load_doc rep [] d = (h0, doc) ->
   h_select true h0 doc q = (h1, HSel p) ->
   (forall o, In o (reach h1 p) -> List.length h0 <= o)
   /\ (forall sid o, In sid doc -> In o (reach h1 sid) -> o < List.length h0).
 Proof.
-  intros E ES. destruct (loaded d h0 doc E) as [F M].
+  intros E ES. destruct (loaded rep d h0 doc E) as [F M].
   destruct (h_select_ref _ h0 doc h0 q h1 (HSel p) F (agree_refl _ _) (le_n _) ES) as (X & _ & P).
   destruct (P p eq_refl) as (P1 & P2 & P3). split.
   - intros o. unfold reach. cbn [In]. intros [<-|Ho]; [exact P1|].
@@ -1018,9 +1022,9 @@ Lemma model_eq i :
          (if i_ver i && is_oci (i_q1 i) then skipverify_of (v_select (i_doc i) (ver_query (i_q1 i))) else 9%N)
          (if i_ver i then ver_of (v_select (i_doc i) (ver_query (i_q1 i))) else VNA).
 Proof.
-  unfold model. destruct (load_doc [] (i_doc i)) as [h0 doc] eqn:EL.
-  destruct (loaded _ h0 doc EL) as [F M].
-  rewrite (heap_refines _ (ver_query (i_q1 i)) h0 doc EL).
+  unfold model. destruct (load_doc (i_rep i) [] (i_doc i)) as [h0 doc] eqn:EL.
+  destruct (loaded _ _ h0 doc EL) as [F M].
+  rewrite (heap_refines _ _ (ver_query (i_q1 i)) h0 doc EL).
   destruct (h_select true h0 doc (i_q1 i)) as [h1 r1] eqn:E1. cbn [fst snd].
   destruct (select_inv _ h0 doc h0 [] (i_q1 i) h1 r1 F (inv0 h0) E1) as [V1 I1]. rewrite M in V1.
   set (ptrs := (match r1 with HSel p => [] ++ [p] | HErr _ => [] end)%list) in *.
@@ -1186,7 +1190,7 @@ Definition shallow_ops : list op :=
   [OSel (QOci "reg.io/a@sha256:0"); OWr 0 (WMapSet "revocation" "skip"); OSel (QOci "reg.io/a@sha256:0")].
 
 Lemma shallow_refuted :
-  exists d ops h0 doc, valid_doc d = true /\ load_doc [] d = (h0, doc) /\
+  exists d ops h0 doc, valid_doc d = true /\ load_doc false [] d = (h0, doc) /\
     fst (session false doc h0 [] ops) <> map (v_select d) (sel_queries ops).
 Proof.
   exists shallow_doc, shallow_ops. eexists. eexists. split; [reflexivity|]. split; [vm_compute; reflexivity|].
@@ -1287,9 +1291,9 @@ Lemma m_blob_no_name_is_global i :
   o_ver (model i) = ver_of (v_select (i_doc i) QGlobal).
 Proof. intros V Q. rewrite model_eq, Q, V. reflexivity. Qed.
 
-Lemma m_later_selection_unaffected d acc q1 ws q2 ver :
-  o_r2 (model (mk_input d acc q1 ws q2 ver)) = o_r1 (model (mk_input d acc q2 [] q2 ver))
-  /\ o_same (model (mk_input d acc q1 ws q2 ver)) = true.
+Lemma m_later_selection_unaffected d acc q1 ws q2 ver rep :
+  o_r2 (model (mk_input d acc q1 ws q2 ver rep)) = o_r1 (model (mk_input d acc q2 [] q2 ver rep))
+  /\ o_same (model (mk_input d acc q1 ws q2 ver rep)) = true.
 Proof. rewrite !model_eq. split; reflexivity. Qed.
 
 Lemma m_error_kind i :
